@@ -78,6 +78,10 @@ class Rec:
         self.fault_counts[kind] = self.fault_counts.get(kind, 0) + n
 
 
+import re as _re
+_VOLATILE = _re.compile(r"[0-9a-fA-F]{8}-[0-9a-fA-F]{4}-[0-9a-fA-F]{4}-[0-9a-fA-F]{4}-[0-9a-fA-F]{12}|0x[0-9a-fA-F]{6,}|/dev/shm/[\w./-]+|/tmp/[\w./-]+")
+
+
 class Collector(logging.Handler):
     def __init__(self, rec: Rec):
         super().__init__(level=0)
@@ -89,6 +93,8 @@ class Collector(logging.Handler):
             msg = record.getMessage()
         except Exception:
             msg = str(record.msg)
+        # uuid4 values, object addresses and temp-dir names never enter the event log
+        msg = _VOLATILE.sub('<volatile>', msg)
         self.rec.ev('log', record.levelname, msg[:2000])
 
 
@@ -307,6 +313,7 @@ class InterruptPlan:
         self.blocks = 0
         self.wait_steps = 0
         self.starve_after = starve_after
+        self.simos = None
 
     def cur(self):
         return self.specs[self.i] if self.i < len(self.specs) else None
@@ -346,7 +353,8 @@ class InterruptPlan:
             self.rec.ev('sigint', n, 'running', self.rec.main_lines)
             raise KeyboardInterrupt()
         m = sim.main
-        self.rec.ev('sigint', n, m.blocked_in or 'running', self.rec.main_lines)
+        ignored = self.simos is not None and self.simos.main_sigint == 'ignore'
+        self.rec.ev('sigint', n, m.blocked_in or 'running', self.rec.main_lines, 'ignored-by-caller' if ignored else 'delivered')
         sim.trace.append(('sigint', n, m.blocked_in or 'running'))
         self.rec.fired('sigint-while-' + (m.blocked_in or 'running'))
         for w in sim.entities:
@@ -354,6 +362,10 @@ class InterruptPlan:
                 w.pending_exc = KeyboardInterrupt()
                 self.rec.ev('sigint-child', w.name, w.phase, w.node)
                 self.rec.fired('sigint-child-default-disposition')
+        if ignored:
+            # the calling process has set SIGINT to SIG_IGN at this instant: the signal is discarded
+            self.rec.fired('sigint-discarded-by-caller')
+            return
         if self.starve_after and n >= self.starve_after:
             sim.starve_workers = True
         if raise_now:
@@ -644,6 +656,7 @@ def execute(sc: dict, ch: Choices, storage_dir: Optional[str], storage_obj=None,
         kp = KillPlan(rec, sc.get('kills') or [], rate=sc.get('kill_rate', 0), max_random=sc.get('max_random_kills', 0))
         sim.hooks.append(kp)
         if ip is not None:
+            ip.simos = simos
             sim.hooks.append(ip)
             sim.sched_hooks.append(ip)
 
